@@ -12,13 +12,15 @@ use crate::engine::{guarded, pattern, show, Limits, Report, Tier, Violation};
 use crate::exch::{ExchCfg, Gate, Menu, ServerMsg};
 use crate::exch_run::{replay_exchange, run_exchanges};
 
-pub const RULE: &str = "E1: for every N in 0..=8 (Content-Length: N; response HTTP/1.0 and 1.1; also with Connection: close on either side, an HTTP/1.0 request, and an ignored Transfer-Encoding on an HTTP/1.0 response; body followed by 3 bytes of a next response) the complete graph over (remaining, consumed, arrived) with 1-byte arrivals and read buffers 0..=N+2; close-delimited streams of 0..=6 bytes with buffers 0..=4, readiness required in every state and the must-close verdict in both successor states. E2: every N in 0..=70000 on a fresh flow: single reads with window length {0,1,N-1,N,N+1,N+3} x buffer {0,1,N-1,N,N+1}, two-step reads through the state 'one byte left', and all steps again in the completed state; large N {2^32-1,2^32+1,2^63,u64::MAX}. Part c (end to end, judged on wire bytes only): request kinds {GET, POST+Expect with the 100 read in time, POST+Expect whose 100 comes late and is skipped in RecvResponse} x N in 0..=8 x every two-window arrival schedule (first window = every prefix of the stream, then everything): the body handed out equals the N bytes after the head and the exchange consumes exactly up to the body's end. distinct = distinct (N class, window class, buffer class, moved class) cells";
+pub const RULE: &str = "E1: for every N in 0..=8 (Content-Length: N; response HTTP/1.0 and 1.1; also with Connection: close on either side, an HTTP/1.0 request, and an ignored Transfer-Encoding on an HTTP/1.0 response; body followed by 3 bytes of a next response) the complete graph over (remaining, consumed, arrived) with 1-byte arrivals and read buffers 0..=N+2; close-delimited streams of 0..=6 bytes with buffers 0..=4, readiness required in every state and the must-close verdict in both successor states. E2: every N in 0..=70000 on a fresh flow: single reads with window length {0,1,N-1,N,N+1,N+3} x buffer {0,1,N-1,N,N+1}, two-step reads through the state 'one byte left', and all steps again in the completed state; large N {2^32-1,2^32+1,2^63,u64::MAX}. Part c (end to end, judged on wire bytes only): request kinds {GET, POST+Expect with the 100 read in time, POST+Expect whose 100 comes late and is skipped in RecvResponse} x N in 0..=8 x every two-window arrival schedule (first window = every prefix of the stream, then everything): the body handed out equals the N bytes after the head and the exchange consumes exactly up to the body's end; Content-Length values beyond u64 (2^64, 2^64+3, 20 and 23 digits) must be refused. distinct = distinct (N class, window class, buffer class, moved class) cells";
 
 fn graph_cfgs() -> Vec<Arc<ExchCfg>> {
     let mut out = Vec::new();
     // the length rule must not depend on anything else in the exchange: response / request versions,
     // Connection: close on either side, a Transfer-Encoding header on an HTTP/1.0 response (ignored there)
-    let variants: [(&str, &str, &[(&str, &str)], bool); 8] = [
+    let variants: [(&str, &str, &[(&str, &str)], bool); 9] = [
+        // an empty-valued field ahead of the Content-Length field must not hide it
+        ("1.1", "1.1", &[("X-Request-Id", "")], false),
         // a Transfer-Encoding list without any chunked element (empty element / prefix of the word) does not make it chunked
         ("1.1", "1.1", &[("Transfer-Encoding", "gzip,")], false),
         ("1.1", "1.1", &[("Transfer-Encoding", "chunk")], false),
@@ -233,6 +235,7 @@ const E2E_KINDS: [&str; 3] = ["get", "post-late-100", "post-100-in-time"];
 
 fn run_end_to_end(rep: &mut Report) {
     let mut cells = 0u64;
+    let instances_before = rep.violation_instances();
     for kind in E2E_KINDS {
         for n in 0..=8usize {
             for split in 0..=(25 + 60 + n + 10) {
@@ -250,10 +253,40 @@ fn run_end_to_end(rep: &mut Report) {
             }
         }
     }
+    // lengths beyond u64: the head must be refused - accepting it with a wrapped value would hand out a
+    // body of the wrong length and report the exchange complete while most of the body is still on the wire
+    for cl in ["18446744073709551616", "18446744073709551619", "184467440737095516160", "99999999999999999999999"] {
+        cells += 1;
+        let r = guarded(|| -> Option<String> {
+            let mut f = crate::props::flows::recv_response_flow("GET");
+            let head = format!("HTTP/1.1 200 OK\r\nContent-Length: {}\r\n\r\n", cl);
+            match f.try_response(format!("{}abcdefgh", head).as_bytes()) {
+                Err(_) => None,
+                Ok((n, Some(_))) => {
+                    let mode = match AnyFlow::RecvResponse(f).proceed() {
+                        Ok(Some(AnyFlow::RecvBody(b))) => format!("{:?}", b.body_mode()),
+                        Ok(Some(o)) => format!("state {}", o.name()),
+                        o => format!("{:?}", o.map(|x| x.map(|y| y.name()))),
+                    };
+                    Some(format!("a Content-Length of {} (more than a u64 can hold) was accepted: consumed {}, then {}", cl, n, mode))
+                }
+                Ok((n, None)) => Some(format!("complete head not answered: consumed {}", n)),
+            }
+        });
+        let fail = match r {
+            Ok(x) => x.map(|w| ("C08:end-to-end:oversize-length-accepted".to_string(), w)),
+            Err(p) => Some((format!("C08:panic:{}", crate::engine::panic_site(&p)), p)),
+        };
+        if let Some((key, what)) = fail {
+            rep.violation(Violation { key, ord: 49, what, replay: json!({"kind": "oversize", "cl": cl}) });
+        }
+    }
     rep.evaluations += cells;
     rep.transitions += cells;
     rep.extra("end_to_end_cells", json!(cells));
-    crate::engine::validate_case(rep, replay, json!({"kind": "e2e", "request": "post-late-100", "n": 5, "split": 30}));
+    if rep.violation_instances() == instances_before {
+        crate::engine::validate_case(rep, replay, json!({"kind": "e2e", "request": "post-late-100", "n": 5, "split": 30}));
+    }
 }
 
 fn sweep_n(n: u64, rep: &mut Report) {
@@ -357,6 +390,11 @@ pub fn replay(v: &Value) -> Result<Option<String>, String> {
             let inp = pattern(len);
             let mut out = vec![0u8; len];
             Ok(seq(n, &steps, &inp, &mut out).err().map(|(k, w)| format!("[{}] {}", k, w)))
+        }
+        Some("oversize") => {
+            let mut r = Report::new();
+            run_end_to_end(&mut r);
+            Ok(r.violations.into_iter().find(|(k, _)| k.contains("oversize")).map(|(k, (_, v))| format!("[{}] {}", k, v.what)))
         }
         Some("e2e") => Ok(end_to_end(v["request"].as_str().ok_or("request")?, v["n"].as_u64().ok_or("n")? as usize, v["split"].as_u64().ok_or("split")? as usize).err().map(|(k, w)| format!("[{}] {}", k, w))),
         Some("sweep") => {
